@@ -51,7 +51,9 @@ def cases_c09g(gb, rng, tier):
                     enc = genref.encode(sch, ty, v, proto)
                     if len(enc) > 600:
                         continue
-                    inputs = [enc[:c] for c in sorted(set(rng.sample(range(len(enc)), min(len(enc), 10))))]
+                    cuts = sorted(set(rng.sample(range(len(enc)), min(len(enc), 10))))
+                    inputs = [enc[:c] for c in cuts]
+                    n_prefix = len(inputs) if sch.types[tname]['kind'] == 'struct' else 0     # struct encodings are prefix-free
                     for _ in range(8):
                         b = bytearray(enc)
                         pos = rng.randrange(len(b))
@@ -62,11 +64,47 @@ def cases_c09g(gb, rng, tier):
                                 b[pos + j] = (val >> (8 * (width - 1 - j))) & 0xff
                         inputs.append(bytes(b))
                     inputs.append(bytes(rng.randrange(256) for _ in range(rng.choice([1, 3, 9, 30]))))
-                    for data in inputs:
+                    for j, data in enumerate(inputs):
                         k += 1
                         mode = 'sync' if k % 3 else 'async:' + genrun.SCHEDULES[k % len(genrun.SCHEDULES)]
                         cases.append(dict(line=genrun.case_line('mem', cfg, tname, proto, mode, data), cfg=cfg, type=tname, proto=proto,
-                                          mode=mode, n=len(data), nontrivial=True, model=False))
+                                          mode=mode, n=len(data), nontrivial=True, model=False, strict_prefix=j < n_prefix))
+            # strict prefixes of messages of a RICHER writer schema (an ignored bool / i32 field before a known field): the reader has
+            # to skip it first -- state left behind by skipping must not make a later prefix look complete
+            d0 = sch.types[tname]
+            if d0['kind'] == 'struct' and d0['fields'] and cfg == 'plain':
+                from . import genevo
+                def _has_bool_elem(t):
+                    t = sch.resolve(t)
+                    return t[0] in ('list', 'set', 'map') and any(sch.resolve(x) == ('bool',) or _has_bool_elem(x) for x in t[1:])
+                boolc = [j for j, f in enumerate(d0['fields']) if _has_bool_elem(f['ty'])]
+                # a skipped bool field directly before a container of bools, several values each (the compact protocol parks a
+                # bool field's value in the reader: it must not be served to the container's first element)
+                plan = [(('bool',), None), (('i32',), None)] + [(('bool',), j) for j in boolc for _ in range(6 if tier == 'quick' else 40)]
+                for nt, at in plan:
+                    W = sch.copy()
+                    dw = W.types[tname]
+                    used = {f['id'] for f in dw['fields']}
+                    pos = rng.randrange(len(dw['fields'])) if at is None else at
+                    if at is not None:
+                        dw['fields'][pos] = dict(dw['fields'][pos], req='required')
+                    nxt = dw['fields'][pos]['id']
+                    near = [i for i in range(max(1, nxt - 15), nxt) if i not in used]
+                    free = [i for i in genevo.NEW_IDS if i not in used]
+                    if not (near or free):
+                        continue
+                    nf = dict(id=rng.choice(near) if near else rng.choice(free), name='added', req='required', ty=nt, lit=None, default=None,
+                              const=None, doc=None, ann={}, idl_req='required')
+                    dw['fields'].insert(pos, nf)
+                    v = gengen.gen_value(rng, W, ('ref', tname), 2)
+                    for proto in ('binary', 'compact'):
+                        enc = genref.encode(W, ('ref', tname), v, proto)
+                        if len(enc) > 400:
+                            continue
+                        cuts = range(len(enc)) if len(enc) <= 48 else sorted(set(rng.sample(range(len(enc)), 40)))
+                        for c in cuts:
+                            cases.append(dict(line=genrun.case_line('mem', cfg, tname, proto, 'sync', enc[:c]), cfg=cfg, type=tname, proto=proto,
+                                              mode='sync', n=c, nontrivial=True, model=False, strict_prefix=True))
             # deep nesting of a directly self-referential struct (finding F-09f): N field headers of the recursive field, then
             # the stop bytes -- a well-formed message a few kilobytes long
             d = sch.types[tname]
@@ -129,6 +167,9 @@ def eval_c09g(gb, case, out):
             cls = 'recursive-schema-deep-nesting'
         return [('emitted decoder does not return on malformed input: %s' % (out or '')[:80], cls)]
     kind, peak = m.group(1), int(m.group(3))
+    if kind == 'ok' and case.get('strict_prefix'):
+        cls = 'keep-is-arg-swallow' if genrun.is_arg_swallow(sch, case['cfg'], case['type'], case['mode']) else None
+        return [('a strict prefix of a valid struct encoding is accepted as a complete message', cls)]
     if kind in ('panic', 'hang'):
         cls = 'keep-is-arg-swallow' if genrun.is_arg_swallow(sch, case['cfg'], case['type'], case['mode']) else prealloc
         return [('emitted decoder %ss on malformed input' % kind, cls)]
